@@ -270,7 +270,7 @@ def draw_field_new(rng, slot_mesh, out, mesh_m, nvdim=None, dtypes=(None, None, 
         "out": out,
         "nvdim": nvdim,
         "value": draw_value_spec(rng, dt),
-        "valid": {"kind": "mask", "seed": rng.randrange(2**31), "p": rng.choice([0.3, 0.6, 0.9])} if rng.random() < p_valid else None,
+        "valid": ({"kind": "mask", "seed": rng.randrange(2**31), "p": rng.choice([0.3, 0.6, 0.9])} if rng.random() < 0.88 else rng.choice([{"kind": "mask", "seed": 1, "p": 0.0}, {"kind": "mask", "seed": 1, "p": 1.1}, {"kind": "mask", "seed": rng.randrange(2**31), "p": 0.5, "special": "single"}])) if rng.random() < p_valid else None,
         "vdims": vd,
         "mapping": mp,
         "unit": rng.choice(["A/m", "T", "J"]) if rng.random() < unit_p else None,
